@@ -9,35 +9,6 @@ Local Arguments g_index : simpl never.
 Local Arguments gkey_eqb : simpl never.
 Local Arguments verify : simpl never.
 
-(* graph.index of a key that is already indexed with the same successors is harmless *)
-Lemma g_index_inv' S g n ss :
-  graph_inv S g -> (S (gk n) = None \/ S (gk n) = Some ss) ->
-  graph_inv (upd S (gk n) (Some ss)) (g_index n ss g).
-Proof.
-  intros Hg [Hnew|Hold]; [now apply g_index_inv|].
-  destruct Hg as [H1 H2 H3 H4]. set (k := gk n).
-  constructor; rewrite ?g_index_nodes, ?g_index_preds, ?g_index_succs; fold k.
-  - intro k'. destruct (gdec k' k) as [->|Hne].
-    + rewrite (get_put_eq gkey_eqb gkey_eqb_spec), upd_eq. split; discriminate.
-    + rewrite (get_put_neq gkey_eqb gkey_eqb_spec) by exact Hne. rewrite upd_neq by exact Hne. apply H1.
-  - intros k' d. destruct (gdec k' k) as [->|Hne].
-    + rewrite (get_put_eq gkey_eqb gkey_eqb_spec). intro E. injection E as <-. reflexivity.
-    + rewrite (get_put_neq gkey_eqb gkey_eqb_spec) by exact Hne. apply H2.
-  - intro k'. destruct (gdec k' k) as [->|Hne].
-    + rewrite upd_eq, (get_put_eq gkey_eqb gkey_eqb_spec). eexists. split; [reflexivity|].
-      intro x. rewrite fold_set_add_In. simpl. tauto.
-    + rewrite upd_neq by exact Hne. rewrite (get_put_neq gkey_eqb gkey_eqb_spec) by exact Hne. apply H3.
-  - intros m p. rewrite index_fold_In, H4. split.
-    + intros [(l & A & B)|[-> B]].
-      * destruct (gdec p k) as [->|Hne].
-        -- exists ss. split; [apply upd_eq|]. fold k in Hold. congruence.
-        -- exists l. split; auto. now rewrite upd_neq.
-      * exists ss. split; auto. apply upd_eq.
-    + intros (l & A & B). destruct (gdec p k) as [->|Hne].
-      * rewrite upd_eq in A. injection A as <-. right. auto.
-      * rewrite upd_neq in A by exact Hne. left. eauto.
-Qed.
-
 Definition remaining (t : mthread) : list op :=
   match t_pc t with MPush2 d c => [Push d c] | MTag2 d r => [Tag d r] | _ => [] end ++ t_ops t.
 
